@@ -1085,19 +1085,26 @@ void list_output_xtensa(
 
   Memory *memory = &asm_context->memory;
 
-  count = disasm_xtensa(
-    memory,
-    start,
-    instruction,
-    sizeof(instruction),
-    asm_context->flags,
-    &cycles_min,
-    &cycles_max);
+  while (start < end)
+  {
+    count = disasm_xtensa(
+      memory,
+      start,
+      instruction,
+      sizeof(instruction),
+      asm_context->flags,
+      &cycles_min,
+      &cycles_max);
 
-  get_bytes(memory, start, count, bytes, sizeof(bytes));
+    get_bytes(memory, start, count, bytes, sizeof(bytes));
 
-  fprintf(asm_context->list, "0x%04x: %s  %-40s", start, bytes, instruction);
-  fprintf(asm_context->list, "\n");
+    fprintf(asm_context->list, "0x%04x: %s  %-40s", start, bytes, instruction);
+    fprintf(asm_context->list, "\n");
+
+    if (count < 1) { break; }
+
+    start += count;
+  }
 }
 
 void disasm_range_xtensa(
